@@ -198,6 +198,7 @@ struct Harness {
     std::unordered_set<u64> distinct;
     std::vector<std::string> samples;
     u64 evaluations = 0, sample_seen = 0, violations = 0;
+    u64 distinct_counted = 0;      // cases that are distinct by construction (enumerations): counted, not hashed
     long long cur_case = -1;
     Rng sample_rng{12345};
     std::function<void()> on_finish;
@@ -269,7 +270,7 @@ struct Harness {
         flight().case_no = -3;
         if (on_finish) on_finish();
         std::string s = "{\"t\":\"summary\",\"evaluations\":" + std::to_string(evaluations) +
-            ",\"distinct\":" + std::to_string(distinct.size()) + ",\"violations\":" + std::to_string(violations) + ",\"counters\":{";
+            ",\"distinct\":" + std::to_string(distinct.size() + distinct_counted) + ",\"violations\":" + std::to_string(violations) + ",\"counters\":{";
         bool f = true;
         for (auto& kv : counters) { if (!f) s += ","; f = false; s += jstr(kv.first) + ":" + std::to_string(kv.second); }
         s += "},\"viol_by_sig\":{";
